@@ -10,7 +10,7 @@ import json, os, re, subprocess, sys
 
 ROOT = os.path.dirname(os.path.dirname(os.path.abspath(__file__)))
 SPEC = os.path.join(ROOT, "spec")
-GEN = os.path.join(SPEC, "gen")
+GEN = os.environ.get("VERIF_GEN_DIR", os.path.join(SPEC, "gen"))
 
 DEFAULTS = {
     "CONSTANTS": "", "VARIABLES": "", "DEFINES": "", "PROCEDURES": "", "OPS": "",
@@ -56,6 +56,9 @@ def read_fragment(path):
 
 def fill(tmpl, sec, name):
     out = tmpl.replace("@@NAME@@", name)
+    sec = dict(sec)
+    # fragments written before the per-event step counter `tn` existed
+    sec["TRACEACTIONS"] = sec.get("TRACEACTIONS", "").replace("UNCHANGED <<tk, xm>>", "UNCHANGED <<tk, xm, tn>>")
     for k, v in sec.items():
         out = out.replace("@@" + k + "@@", v.rstrip("\n") if k not in ("VARIABLES",) else v.rstrip("\n"))
     return out
